@@ -138,6 +138,15 @@ def run(ctx):
                         agg_consumers=['mithril_common::messages::message_parts::certificate_metadata::CertificateMetadataMessagePart'],
                         desc='(entity -> message)')
 
+    # same-named fields map onto each other (no field is rebuilt from another source)
+    MP = 'mithril_common::messages::message_parts::certificate_metadata::CertificateMetadataMessagePart'
+    if fm2c is not None:
+        ctx.field_mapping('e', M + 'CertificateMessage', E + 'certificate::Certificate', fm2c, desc='(message -> entity)')
+        ctx.field_mapping('e', MP, E + 'certificate_metadata::CertificateMetadata', fm2c, desc='(message -> entity)', src_prefix='pty:CertificateMessage.metadata')
+    if fc2m is not None:
+        ctx.field_mapping('e', E + 'certificate::Certificate', M + 'CertificateMessage', fc2m, desc='(entity -> message)')
+        ctx.field_mapping('e', E + 'certificate_metadata::CertificateMetadata', MP, fc2m, desc='(entity -> message)', src_prefix='pty:Certificate.metadata')
+
     # (f)
     if fm2c is not None:
         body = fm2c.body
